@@ -1223,6 +1223,7 @@ static void hostlist_delete_range(hostlist_t hl, int n)
 {
     int i;
     hostrange_t old;
+    hostlist_iterator_t hli;
 
     assert(hl != NULL);
     assert((hl->magic == HOSTLIST_MAGIC));
@@ -1233,6 +1234,13 @@ static void hostlist_delete_range(hostlist_t hl, int n)
         hl->hr[i] = hl->hr[i + 1];
     hl->nranges--;
     hl->hr[hl->nranges] = NULL;
+
+    /* an iterator inside the deleted range goes on after the last host
+     * of the previous range, not at its own old depth in that range */
+    for (hli = hl->ilist; hli; hli = hli->next) {
+        if (hli->idx == n)
+            hli->depth = n > 0 ? hostrange_count(hl->hr[n - 1]) - 1 : -1;
+    }
     hostlist_shift_iterators(hl, n, 0, 1);
 
     /* XXX caller responsible for adjusting nhosts */
